@@ -791,13 +791,13 @@ func c20ExecSuper1(raw json.RawMessage) interface{} {
 		cfg[prefix+"zbarrier"] = fmt.Sprintf("name: zbarrier\nkind: VerifBarrier\nbody: %d\n", barrier)
 		select {
 		case syncCh <- cfg:
-		case <-time.After(8 * time.Second):
+		case <-time.After(3 * time.Second):
 			obs.Err = "registry run loop does not take the snapshot"
 			return obs
 		}
 		select {
 		case <-c20BarrierCh:
-		case <-time.After(8 * time.Second):
+		case <-time.After(3 * time.Second):
 			obs.Err = "supervisor run loop did not reach the barrier"
 			return obs
 		}
